@@ -1,9 +1,9 @@
-(* C17, assembly: one-step refinement for all 18 operations, histories, the frame
+(* C17, assembly: one-step refinement for all 19 operations, histories, the frame
    property of the plain model (byte level, with an explicit footprint), and the
    get-after-set laws. *)
 From PV Require Import Base.Prelude Base.ListX Base.PySlice Model.HexSection Model.Gfx Model.Gff Model.MapSec
   Model.Sfx Model.Music Model.Accessors Spec.P8Format Spec.PlainMem
-  Proofs.RowLemmas Proofs.SfxProofs Proofs.AccessorsBase Proofs.AccessorsSimple Proofs.AccessorsLoops.
+  Proofs.RowLemmas Proofs.SfxProofs Proofs.AccessorsBase Proofs.AccessorsSimple Proofs.AccessorsLoops Proofs.AccessorsRectPx.
 From Coq Require Import ZifyBool.
 Ltac Zify.zify_post_hook ::= Z.to_euclidean_division_equations.
 
@@ -18,6 +18,7 @@ Proof.
   - apply mapset_ok; assumption.
   - apply mapgetrect_ok; assumption.
   - apply mapsetrect_ok; assumption.
+  - apply mapgetrectpx_ok; assumption.
   - apply flagget_ok; assumption.
   - apply flagset_ok; assumption.
   - apply flagclear_ok; assumption.
@@ -75,8 +76,8 @@ Definition sr_touch (r : region) (a x y ty : Z) (xv : Z * Z) : bool :=
 (* footprint o r a: operation o addresses byte a of region r *)
 Definition footprint (o : op) (r : region) (a : Z) : bool :=
   match o with
-  | GetSprite _ _ _ | MapGet _ _ | MapGetRect _ _ _ _ | FlagGet _ _ | NoteGet _ _ | SfxPropGet _
-  | ChanGet _ _ | MusPropGet _ => false
+  | GetSprite _ _ _ | MapGet _ _ | MapGetRect _ _ _ _ | MapGetRectPx _ _ _ _ | FlagGet _ _ | NoteGet _ _
+  | SfxPropGet _ | ChanGet _ _ | MusPropGet _ => false
   | SetSprite id xo yo rows =>
     match r with
     | RGfx => existsb (fun yr : Z * list Z => let '(y, row) := yr in
@@ -276,8 +277,8 @@ Qed.
 (* getters change nothing at all *)
 Definition is_getter (o : op) : bool :=
   match o with
-  | GetSprite _ _ _ | MapGet _ _ | MapGetRect _ _ _ _ | FlagGet _ _ | NoteGet _ _ | SfxPropGet _
-  | ChanGet _ _ | MusPropGet _ => true
+  | GetSprite _ _ _ | MapGet _ _ | MapGetRect _ _ _ _ | MapGetRectPx _ _ _ _ | FlagGet _ _ | NoteGet _ _
+  | SfxPropGet _ | ChanGet _ _ | MusPropGet _ => true
   | _ => false
   end.
 Lemma c17_getter_pure s o : is_getter o = true -> fst (spec_step s o) = s.
@@ -447,6 +448,7 @@ Definition no_gfx_ok (o : op) : bool :=
   | MapSet x y v => y <=? 31
   | MapGetRect x y w h => y + h <=? 32
   | MapSetRect x y rows => y + zlen rows <=? 32
+  | MapGetRectPx _ _ _ _ => false        (* get_rect_pixels needs the Gfx for the sprites themselves *)
   | _ => true
   end.
 
@@ -467,7 +469,11 @@ Proof.
     destruct (map_set_rect_gen (m_map s) (m_gfx s) false x y rows) as (E & _); try assumption; try lia.
     unfold step_model, spec_step. cbv beta iota zeta. rewrite E.
     destruct (spec_set_rect (m_map s, m_gfx s) x y rows) as [m' g']. reflexivity.
+  - (* MapGetRectPx *) discriminate G.
 Qed.
+
+Lemma c17_nogfx_refuses_pixels s x y w h : step_model false s (MapGetRectPx x y w h) = Err AssertionError.
+Proof. reflexivity. Qed.
 
 Lemma c17_nogfx_refuses s x y v : 32 <= y ->
   step_model false s (MapGet x y) = Err AssertionError /\ step_model false s (MapSet x y v) = Err AssertionError.
